@@ -389,7 +389,11 @@ func Generate(t *rapid.T, p *Profile) *Program {
 		}
 		g.emit("")
 	}
-	for _, l := range strings.Split(strings.TrimRight(Decls, "\n"), "\n") {
+	decls := Decls
+	if p.Enter {
+		decls = DeclsWithEnter()
+	}
+	for _, l := range strings.Split(strings.TrimRight(decls, "\n"), "\n") {
 		g.lines = append(g.lines, l)
 	}
 	g.emit("")
